@@ -13,6 +13,7 @@ from vp import treeoracle as TO
 
 WHY = None
 VERS = ['3.6', '3.10', '3.14']
+ALLV = ['3.6', '3.7', '3.8', '3.9', '3.10', '3.11', '3.12', '3.13', '3.14']
 G = {v: parso.load_grammar(version=v) for v in VERS}
 TEXTS = [
     "def f():\n    a = 1\n    b c\n", "x = 1\nif x:\n  y = [1,\n 2]\nelse: $\n", "    x = 1\ny = 2\n",
@@ -93,6 +94,11 @@ def shared_state():
                         out.append((m.__name__, name, an, _deep(av)))
                     elif isinstance(av, types.FunctionType):
                         out.append((m.__name__, name, an, 'defaults', _deep(av.__defaults__), _deep(av.__kwdefaults__)))
+    # interpreter-global state a library call must leave alone
+    import warnings
+    import gc
+    out.append(('interpreter', 'warnings.filters', tuple(repr(f)[:120] for f in warnings.filters)))
+    out.append(('interpreter', 'misc', sys.getrecursionlimit(), gc.isenabled(), sys.getswitchinterval()))
     # generated tables of the loaded grammars
     for v in VERS:
         pg = G[v]._pgen_grammar
@@ -309,7 +315,7 @@ def _loading(order, vi):
     """a grammar loaded from an explicit path (the shipped 3.6 text) and a grammar loaded by version, in both orders"""
     import hashlib
     from parso import grammar as GM
-    v = VERS[vi]
+    v = ALLV[vi]
     base = os.path.join(os.path.dirname(parso.__file__), 'python')
     src = os.path.join(base, 'grammar36.txt')
     saved = dict(GM._loaded_grammars)
@@ -337,6 +343,6 @@ def _loading(order, vi):
 
 def loading(order: bool, vi: int) -> bool:
     """
-    require: 0 <= vi < 3
+    require: 0 <= vi < 9
     """
     return _go(_loading, order, vi)
